@@ -86,7 +86,7 @@ def build(objspec, raw, state):
     """objspec: ('ind', label, tfc) | ('hex', [(label, mtf)...], hcfg)."""
     bind_repo()
     from hexital import Hexital
-    k = {"empty": 0, "preloaded": 3, "calculated": 3}[state]
+    k = {"empty": 0, "preloaded": 3, "calculated": 3, "added": 3}[state]
     if objspec[0] == "ind":
         label, tf = objspec[1], objspec[2]
         kw = {"timeframe": tf} if tf else {}
@@ -102,8 +102,10 @@ def build(objspec, raw, state):
     if "candles_lifespan" in hk:
         hk["candles_lifespan"] = timedelta(seconds=hk["candles_lifespan"])
     o = Hexital("h", fresh(raw[:k]), inds, **hk)
-    if state == "calculated":
+    if state in ("calculated", "added"):
         o.calculate()
+    if state == "added":  # an indicator registered after the fact and not calculated yet: reading it must not calculate it
+        o.add_indicator(make(BY_LABEL["EMA3"]))
     return o, k
 
 
@@ -190,6 +192,8 @@ def explore(item):
         accs = indicator_accessors(obj)
     else:
         names = list(obj.indicators)
+        if state == "added":
+            names = ["EMA_3"] + [n for n in names if n != "EMA_3"]
         accs = hexital_accessors(obj, names, [t for _, t in objspec[1] if t])
     seen = {deep(obj): ()}
     frontier = deque([(obj, pos, (), 0)])
@@ -490,7 +494,10 @@ def replay(case):
     raw = enc_raw(case["word"], case.get("fine", False))
     if case["oracle"] in ("accessor", "usable"):
         obj, pos = build(objspec, raw, case["state"])
-        accs = indicator_accessors(obj) if objspec[0] == "ind" else hexital_accessors(obj, list(obj.indicators), [t for _, t in objspec[1] if t])
+        hn = list(obj.indicators) if objspec[0] != "ind" else []
+        if case["state"] == "added":
+            hn = ["EMA_3"] + [n for n in hn if n != "EMA_3"]
+        accs = indicator_accessors(obj) if objspec[0] == "ind" else hexital_accessors(obj, hn, [t for _, t in objspec[1] if t])
         amap = dict(accs)
         steps = [tuple(x) for x in case["path"]]
         k = case.get("after_appends", 0)
@@ -563,11 +570,12 @@ def main(prop, tier):
     if tier != "quick":  # a longer stream, so that the deeper search is not cut short by running out of candles
         word = (word + word[::-1])[:14]
     items = [(tier, oi, st, word) for oi in range(len(OBJECTS)) for st in ("empty", "preloaded", "calculated")]
+    items += [(tier, oi, "added", word) for oi in range(len(OBJECTS)) if OBJECTS[oi][0] == "hex"]
     reps = pmap(explore, items)
     reps += pmap(explore_enc, [(tier, oi, word, fine) for oi in range(len(OBJECTS)) for fine in (False, True)])
     reps += pmap(explore_delivery, [(tier, di, word) for di in range(len(DELIVERY))])
     rep = merge_all(reps)
-    rule = ("explicit-state search: from 3 initial states of every object of the pool (10 indicators, 6 Hexitals with 1-3 timeframes, fill, HA) "
+    rule = ("explicit-state search: from 3 initial states (Hexitals: 4, incl. 'an indicator added but not yet calculated') of every object of the pool (10 indicators, 6 Hexitals with 1-3 timeframes, fill, HA) "
             "every accessor of the read-only menu is applied in every reachable state (appends of 1|2 candles to the depth bound, states "
             "deduplicated on a deep snapshot of the whole object graph); the object with the accessor applied must be observationally equal "
             "(all candles of all timeframes + the results of all accessors) to the object without it, immediately and after 1 and 2 further appends; encoding matrix: every pair of encodings for the first two appends x encodings of the rest, all 9 encodings, result "
